@@ -286,7 +286,7 @@ def write_evidence(pid, ev):
     d = os.path.join(VERIF, 'evidence')
     os.makedirs(d, exist_ok=True)
     p = os.path.join(d, '%s.json' % pid)
-    tmp = p + '.tmp'
+    tmp = '%s.%d.tmp' % (p, os.getpid())      # checks may run concurrently
     with open(tmp, 'w') as fh:
         json.dump(ev, fh, indent=1, sort_keys=True, default=str)
     os.replace(tmp, p)
